@@ -68,6 +68,136 @@ impl Record<'_> {
     }
 }
 
+impl Record<'_> {
+    // Validates that the lazily evaluated fields (CIGAR, sequence, quality scores, and alignment
+    // span) are well defined, i.e., that the features are ordered and within the read, and, when
+    // the sequence is resolved using a reference sequence, that the alignment is within the
+    // reference sequence.
+    pub(crate) fn validate(&self) -> io::Result<()> {
+        fn invalid_data_error(message: &'static str) -> io::Error {
+            io::Error::new(io::ErrorKind::InvalidData, message)
+        }
+
+        let is_sequence_resolved =
+            !self.bam_flags.is_unmapped() && !self.cram_flags.sequence_is_missing();
+
+        // The number of reference bases from the alignment start, if the sequence is resolved
+        // using a reference sequence.
+        let reference_len = match &self.reference_sequence {
+            Some(reference_sequence) if is_sequence_resolved => {
+                let (reference_start, len) = match reference_sequence {
+                    ReferenceSequence::Embedded {
+                        reference_start,
+                        sequence,
+                    } => (*reference_start, sequence.len()),
+                    ReferenceSequence::External { sequence } => (Position::MIN, sequence.len()),
+                };
+
+                let alignment_start = self
+                    .alignment_start
+                    .ok_or_else(|| invalid_data_error("missing alignment start"))?;
+
+                let n = usize::from(alignment_start)
+                    .checked_sub(usize::from(reference_start))
+                    .and_then(|offset| len.checked_sub(offset))
+                    .ok_or_else(|| invalid_data_error("invalid alignment start"))?;
+
+                Some(n)
+            }
+            _ => None,
+        };
+
+        let is_reference_sequence_missing = is_sequence_resolved && reference_len.is_none();
+
+        let mut reference_span: usize = 0;
+        let mut read_position = usize::from(Position::MIN);
+
+        for feature in &self.features {
+            let position = usize::from(feature.position());
+
+            let (reference_len_delta, read_len_delta) = match feature {
+                Feature::Bases { bases, .. } => (bases.len(), bases.len()),
+                Feature::ReadBase { .. } => (1, 1),
+                Feature::Substitution { .. } => (1, 1),
+                Feature::Insertion { bases, .. } => (0, bases.len()),
+                Feature::Deletion { len, .. } => (*len, 0),
+                Feature::InsertBase { .. } => (0, 1),
+                Feature::ReferenceSkip { len, .. } => (*len, 0),
+                Feature::SoftClip { bases, .. } => (0, bases.len()),
+                Feature::Padding { .. } => (0, 0),
+                Feature::HardClip { .. } => (0, 0),
+                Feature::Scores { quality_scores, .. } => {
+                    if quality_scores.len() > (self.read_length + 1).saturating_sub(position) {
+                        return Err(invalid_data_error("invalid feature position"));
+                    }
+
+                    continue;
+                }
+                Feature::QualityScore { .. } => {
+                    if position > self.read_length {
+                        return Err(invalid_data_error("invalid feature position"));
+                    }
+
+                    continue;
+                }
+            };
+
+            // The bases between the previous feature and this one match the reference sequence.
+            let match_len = position
+                .checked_sub(read_position)
+                .ok_or_else(|| invalid_data_error("invalid feature position"))?;
+
+            // A base substitution is applied to a reference base.
+            if is_reference_sequence_missing
+                && (match_len > 0 || matches!(feature, Feature::Substitution { .. }))
+            {
+                return Err(invalid_data_error("missing reference sequence"));
+            }
+
+            reference_span = reference_span
+                .checked_add(match_len)
+                .ok_or_else(|| invalid_data_error("invalid feature position"))?;
+
+            // The matching bases and the base that is substituted are in the reference sequence.
+            let is_substitution = matches!(feature, Feature::Substitution { .. });
+
+            if reference_len.is_some_and(|n| reference_span + usize::from(is_substitution) > n) {
+                return Err(invalid_data_error(
+                    "alignment extends past the end of the reference sequence",
+                ));
+            }
+
+            reference_span = reference_span
+                .checked_add(reference_len_delta)
+                .ok_or_else(|| invalid_data_error("invalid feature length"))?;
+
+            read_position = read_position
+                .checked_add(match_len)
+                .and_then(|n| n.checked_add(read_len_delta))
+                .ok_or_else(|| invalid_data_error("invalid feature length"))?;
+        }
+
+        // The bases after the last feature match the reference sequence.
+        let match_len = (self.read_length + 1)
+            .checked_sub(read_position)
+            .ok_or_else(|| invalid_data_error("features extend past the end of the read"))?;
+
+        if is_reference_sequence_missing && match_len > 0 {
+            return Err(invalid_data_error("missing reference sequence"));
+        }
+
+        if match_len > 0
+            && reference_len.is_some_and(|n| match_len > n.saturating_sub(reference_span))
+        {
+            return Err(invalid_data_error(
+                "alignment extends past the end of the reference sequence",
+            ));
+        }
+
+        Ok(())
+    }
+}
+
 impl Default for Record<'_> {
     fn default() -> Self {
         Self {
@@ -280,6 +410,196 @@ pub(crate) fn calculate_alignment_span(read_length: usize, features: &[Feature])
 #[cfg(test)]
 mod tests {
     use super::*;
+
+    #[test]
+    fn test_validate() -> Result<(), noodles_core::position::TryFromIntError> {
+        use std::sync::Arc;
+
+        use noodles_fasta as fasta;
+
+        fn is_invalid(record: &Record<'_>) -> bool {
+            matches!(record.validate(), Err(e) if e.kind() == io::ErrorKind::InvalidData)
+        }
+
+        let reference_sequence = ReferenceSequence::External {
+            sequence: Arc::new(fasta::record::Sequence::from(b"ACGTACGT".to_vec())),
+        };
+
+        let base = Record {
+            bam_flags: sam::alignment::record::Flags::default(),
+            reference_sequence: Some(reference_sequence),
+            alignment_start: Position::new(3),
+            read_length: 4,
+            ..Default::default()
+        };
+
+        assert!(Record::default().validate().is_ok());
+        assert!(base.validate().is_ok());
+
+        let record = Record {
+            features: vec![
+                Feature::SoftClip {
+                    position: Position::try_from(1)?,
+                    bases: Cow::from(b"NN"),
+                },
+                Feature::Deletion {
+                    position: Position::try_from(4)?,
+                    len: 2,
+                },
+                Feature::Scores {
+                    position: Position::try_from(3)?,
+                    quality_scores: Cow::from(&[0, 0]),
+                },
+            ],
+            ..base.clone()
+        };
+        assert!(record.validate().is_ok());
+
+        // The alignment is not within the reference sequence.
+        let record = Record {
+            alignment_start: Position::new(6),
+            ..base.clone()
+        };
+        assert!(is_invalid(&record));
+
+        let record = Record {
+            alignment_start: Position::new(9),
+            read_length: 0,
+            ..base.clone()
+        };
+        assert!(record.validate().is_ok());
+
+        let record = Record {
+            alignment_start: Position::new(10),
+            read_length: 0,
+            ..base.clone()
+        };
+        assert!(is_invalid(&record));
+
+        let record = Record {
+            features: vec![Feature::ReferenceSkip {
+                position: Position::try_from(2)?,
+                len: 3,
+            }],
+            ..base.clone()
+        };
+        assert!(is_invalid(&record));
+
+        let record = Record {
+            features: vec![Feature::Substitution {
+                position: Position::try_from(4)?,
+                code: 0,
+            }],
+            alignment_start: Position::new(6),
+            ..base.clone()
+        };
+        assert!(is_invalid(&record));
+
+        let record = Record {
+            features: vec![
+                Feature::Deletion {
+                    position: Position::try_from(4)?,
+                    len: 8,
+                },
+                Feature::InsertBase {
+                    position: Position::try_from(4)?,
+                    base: b'A',
+                },
+            ],
+            ..base.clone()
+        };
+        assert!(is_invalid(&record));
+
+        // A deletion at the end of the alignment does not use the reference sequence.
+        let record = Record {
+            features: vec![Feature::Deletion {
+                position: Position::try_from(5)?,
+                len: 8,
+            }],
+            ..base.clone()
+        };
+        assert!(record.validate().is_ok());
+
+        let record = Record {
+            alignment_start: None,
+            ..base.clone()
+        };
+        assert!(is_invalid(&record));
+
+        // There is no reference sequence.
+        let record = Record {
+            reference_sequence: None,
+            ..base.clone()
+        };
+        assert!(is_invalid(&record));
+
+        let record = Record {
+            reference_sequence: None,
+            features: vec![Feature::Substitution {
+                position: Position::try_from(1)?,
+                code: 0,
+            }],
+            read_length: 1,
+            ..base.clone()
+        };
+        assert!(is_invalid(&record));
+
+        let record = Record {
+            reference_sequence: None,
+            features: vec![Feature::Bases {
+                position: Position::try_from(1)?,
+                bases: Cow::from(b"ACGT"),
+            }],
+            ..base.clone()
+        };
+        assert!(record.validate().is_ok());
+
+        // The features are not in order.
+        let record = Record {
+            features: vec![
+                Feature::Bases {
+                    position: Position::try_from(1)?,
+                    bases: Cow::from(b"ACG"),
+                },
+                Feature::InsertBase {
+                    position: Position::try_from(2)?,
+                    base: b'T',
+                },
+            ],
+            ..base.clone()
+        };
+        assert!(is_invalid(&record));
+
+        // The features are not within the read.
+        let record = Record {
+            features: vec![Feature::SoftClip {
+                position: Position::try_from(2)?,
+                bases: Cow::from(b"ACGT"),
+            }],
+            ..base.clone()
+        };
+        assert!(is_invalid(&record));
+
+        let record = Record {
+            features: vec![Feature::Scores {
+                position: Position::try_from(4)?,
+                quality_scores: Cow::from(&[0, 0]),
+            }],
+            ..base.clone()
+        };
+        assert!(is_invalid(&record));
+
+        let record = Record {
+            features: vec![Feature::QualityScore {
+                position: Position::try_from(5)?,
+                quality_score: 0,
+            }],
+            ..base.clone()
+        };
+        assert!(is_invalid(&record));
+
+        Ok(())
+    }
 
     #[test]
     fn test_calculate_alignment_span() -> Result<(), noodles_core::position::TryFromIntError> {
